@@ -104,6 +104,49 @@ func ruleC06(r *Report) {
 	}
 	safely(r, func() { checkBuilders(r, p) })
 	r.remap = nil
+	r.Rule("C06.deterministic", "the Element() builders, with the unexported helpers they are split into, are functions of the value they render: no iteration over a map whose order reaches the output (no sort in the same function), no clock and no random source (the IdP renders the assertion once to sign it and again to emit it; two renderings that differ break the signature)", 10)
+	safely(r, func() { checkBuildersDeterministic(r, p, "C06.deterministic") })
+}
+
+func checkBuildersDeterministic(r *Report, p *Prog, rule string) {
+	for _, b := range collectBuilders(p) {
+		bad := ""
+		for _, fn := range helperRegion(p, b.fn, 3) {
+			sorts := false
+			var ranges []ssa.Instruction
+			for _, blk := range fn.Blocks {
+				for _, in := range blk.Instrs {
+					switch x := in.(type) {
+					case *ssa.Range:
+						if _, isMap := x.X.Type().Underlying().(*types.Map); isMap {
+							ranges = append(ranges, in)
+						}
+					case ssa.CallInstruction:
+						sc := x.Common().StaticCallee()
+						if sc == nil {
+							continue
+						}
+						n := sc.String()
+						if strings.HasPrefix(n, "sort.") || strings.HasPrefix(n, "slices.Sort") {
+							sorts = true
+						}
+						if n == "time.Now" || strings.HasPrefix(n, "math/rand.") || strings.HasPrefix(n, "math/rand/v2.") || strings.HasPrefix(n, "crypto/rand.") || strings.HasPrefix(n, "(*math/rand.") {
+							bad = n + " at " + p.InstrPos(in)
+						}
+					}
+				}
+			}
+			if sorts {
+				continue
+			}
+			for _, rg := range ranges {
+				if why := orderSensitiveLoop(rg.(*ssa.Range)); why != "" {
+					bad = "iteration over a map in " + p.FnName(fn) + " at " + p.InstrPos(rg) + " (" + why + " in map order)"
+				}
+			}
+		}
+		r.Check(bad == "", rule, b.T.Obj().Name()+".Element renders the same tree each time", p.Pos(b.fn.Pos()), "no map iteration, clock or random source", "the rendering depends on "+bad+": the element that is signed and the element that is emitted can differ")
+	}
 }
 
 // assertionMakerFn: role = method named by the AssertionMaker interface on the default maker.
@@ -1149,4 +1192,42 @@ func literalWithoutField(al *ssa.Alloc, field string) bool {
 		}
 	}
 	return true
+}
+
+// orderSensitiveLoop: the body of the loop over rg accumulates in iteration order: it appends, concatenates strings,
+// writes to a buffer or adds to an etree element. (Stores into a map or into indexed positions do not depend on the order.)
+func orderSensitiveLoop(rg *ssa.Range) string {
+	var header *ssa.BasicBlock
+	for _, ref := range *rg.Referrers() {
+		if nx, ok := ref.(*ssa.Next); ok {
+			header = nx.Block()
+		}
+	}
+	if header == nil {
+		return ""
+	}
+	for _, b := range header.Parent().Blocks {
+		if !inNaturalLoop(header, b) {
+			continue
+		}
+		for _, in := range b.Instrs {
+			switch x := in.(type) {
+			case *ssa.BinOp:
+				if bt, ok := x.Type().Underlying().(*types.Basic); ok && bt.Info()&types.IsString != 0 && x.Op == token.ADD {
+					return "string concatenation"
+				}
+			case ssa.CallInstruction:
+				if bi, ok := x.Common().Value.(*ssa.Builtin); ok && bi.Name() == "append" {
+					return "append"
+				}
+				if sc := x.Common().StaticCallee(); sc != nil {
+					n := sc.String()
+					if strings.Contains(n, etreePath+".") || strings.HasPrefix(n, "(*bytes.Buffer).Write") || strings.HasPrefix(n, "(*strings.Builder).Write") || strings.HasPrefix(n, "fmt.Fprint") {
+						return n
+					}
+				}
+			}
+		}
+	}
+	return ""
 }
